@@ -34,7 +34,16 @@ ASSUMPTIONS = h5.ASSUMPTIONS + [
     "segment requests are sequences of (start, end) pairs of Python ints (tuples of other arity are outside the model)",
 ]
 TRUSTED = ["crcmod 1.7 (C extension) as CRC-16/CCITT-FALSE"]
-EXPLORED_ONLY = []
+EXPLORED_ONLY = [
+    "op 1399 / stream histories_explored_foreign_tlv_items (outside the model: the model's lists hold filestore responses / "
+    "generic TLVs and its fault location is an entity-ID TLV; the library takes every object with packet_len and pack()): "
+    "TLV objects of the library's other classes (EntityIdTlv in file_store_responses, FileStoreResponseTlv / FlowLabelTlv / "
+    "MessageToUserTlv / FaultHandlerOverrideTlv / FileStoreRequestTlv / generic CfdpTlv of any type as fault location, in the "
+    "Metadata options or in the responses list; through the setters, and inside FinishedParams at construction) -- an "
+    "assignment that raises leaves every view, the packed octets and the caller's objects as they were; one that is accepted "
+    "keeps packet_len / the data-field length equal to what pack() emits, pack() repeatable and the caller's objects untouched; "
+    "likewise for the ordinary operation that follows",
+]
 
 WIDTHS = (1, 2, 4, 8)
 
@@ -86,6 +95,9 @@ def _conf_lists(c):
 
 
 def impl(op, a):
+    if op == 1399:
+        from harness.props import c06h
+        return c06h.explore(a)
     if op == 1380:
         from harness.props import c06h
         return c06h.impl(op, a)
@@ -398,6 +410,24 @@ def streams(tier, rng):
                     e.pop()
                 cases.append((1379, [p, e]))
     yield "nak_crc_corruption", "exact", cases
+    # PDUs whose (correct) CRC-16 trailer is 0x0000 / 0xFFFF / has a zero octet / a single bit (a derived quantity random
+    # packets hit once in 65536; found by steering the sequence number, c05.steer_crc): decode, re-pack, round trip
+    cases = []
+    for sl, ql in (itertools.product(WIDTHS, WIDTHS) if big else [(1, 1), (1, 2), (2, 1), (2, 4), (4, 8), (8, 8)]):
+        for target in h5.crc_targets(rng):
+            for _ in range(50):
+                a = _rand_pdu(rng, rng.choice([0, 1, 2, 5]), sl=sl, ql=ql, crc=1)
+                if valid_nak(a):
+                    break
+            b2 = h5.steer_crc(lay(a), target)
+            a2 = [list(x) for x in a]; a2[0] = h5.ids_of(b2)
+            if lay(a2) != b2:
+                raise RuntimeError("steered PDU is not the layout of its arguments")
+            cases.append((1372, [b2])); cases.append((1373, [b2])); cases.append((1374, a2 + [[]])); cases.append((1371, a2))
+            cases.append((1372, [b2 + [rng.randrange(256) for _ in range(rng.choice([1, 3]))]]))
+            q = list(b2); q[-1 - rng.randrange(2)] ^= 1 << rng.randrange(8)
+            cases.append((1372, [q]))
+    yield "nak_crc_trailer_special_values", "exact", cases
     # 9. garbage: random octets biased to NAK-like headers with valid widths and consistent lengths
     cases = []
     for _ in range(30000 if big else 4000):
@@ -425,6 +455,9 @@ def streams(tier, rng):
     for st in c06h.streams_for(["nak"], tier, rng, "c"):
         yield st
     yield "histories_limit_c", "exact", c06h.limit_cases("nak", rng, big)
+    # 11. outside the model (op 1399, see EXPLORED_ONLY): TLV objects of other classes handed to the list / fault-location
+    #     setters and the constructor of the Finished, EOF and Metadata PDUs
+    yield "histories_explored_foreign_tlv_items", "exact", c06h.explore_cases(tier, rng)
 
 
 # ------------------------------------------------------------------ oracle
@@ -461,6 +494,9 @@ def _check_decoded(b, ires, what):
 def oracle(case, ires, sres):
     """The property itself, evaluated on the implementation's observable behaviour."""
     op, a = case
+    if op == 1399:
+        from harness.props import c06h
+        return c06h.explore_oracle(case, ires)
     if op == 1380:
         from harness.props import c06h
         return c06h.oracle(case, ires, sres)
